@@ -111,3 +111,22 @@ pub fn commit(a: &Args) {
     println!("authenticated={}", j(&auth));
     println!("stopped={}", j(&stopped));
 }
+
+/// node_check servers=<0|1,..> nonces=<..> peers=<a|b,..> auth=<ids> asking=<id> this=<name>   (several lines `case=..` allowed: cases=<c1;c2;..>)
+pub fn check_candidate(a: &Args) {
+    let rt = tokio::runtime::Builder::new_current_thread().enable_time().build().unwrap();
+    // cases: "srv/nonces/peers/auth/asking/this" joined by ';'  (lists inside a case joined by '.')
+    let mut out = Vec::new();
+    for case in a.str("cases").split(';').filter(|s| !s.is_empty()) {
+        let p: Vec<&str> = case.split('/').collect();
+        let lst = |s: &str| -> Vec<String> { s.split('.').filter(|x| !x.is_empty()).map(|x| x.to_string()).collect() };
+        let srv = lst(p[0]);
+        let non = lst(p[1]);
+        let peers = lst(p[2]);
+        let sessions: Vec<(bool, u64, String)> = (0..srv.len()).map(|i| (srv[i] == "1", non[i].parse().unwrap(), peers[i].clone())).collect();
+        let auth: Vec<u64> = lst(p[3]).iter().map(|x| x.parse().unwrap()).collect();
+        let r = rt.block_on(np::verif_check_candidate(&sessions, &auth, p[4].parse().unwrap(), p[5]));
+        out.push(r);
+    }
+    println!("replies={}", out.join(","));
+}
